@@ -136,10 +136,14 @@ func c10Exec(op string) string {
 			}
 			// ... in a node the path addresses: the keys on the way match the path (wildcards
 			// match any key), followed by the key itself when the path does not end in it
+			// (a member of a list that is itself a list is entered only by a wildcard, which the
+			// hop consumes: such a hop counts as a step that nothing but "*" matches)
 			var locKeys []string
-			for _, l := range x.loc {
+			for i, l := range x.loc {
 				if !strings.HasPrefix(l, "[") {
 					locKeys = append(locKeys, l)
+				} else if i+1 < len(x.loc) && strings.HasPrefix(x.loc[i+1], "[") {
+					locKeys = append(locKeys, "\x00list-in-list")
 				}
 			}
 			segs := strings.Split(path, ".")
@@ -260,7 +264,23 @@ func c10Gen(r *Rng, n int) []string {
 		if r.P(25) {
 			cfg.Keys = keyAlpha
 		}
+		// JSON-shaped Maps may hold a list directly inside a list (no key step enters it)
+		cfg.ListInList = r.P(30)
 		m := r.RootMap(&cfg)
+		nested := r.P(8)
+		var nestedPath string
+		if nested {
+			// a list directly inside a list, with maps two levels deep beneath it and beside it:
+			// plain key steps do not enter the inner list
+			k1, k2, k3 := r.Pick(plainKeys), r.Pick(plainKeys), r.Pick(plainKeys)
+			leaf := func() interface{} { return map[string]interface{}{k2: map[string]interface{}{k3: r.Scalar(&cfg), "z": "keep"}} }
+			outer := []interface{}{[]interface{}{leaf(), leaf()}, leaf()}
+			if r.Bool() {
+				outer = []interface{}{[]interface{}{leaf()}}
+			}
+			m = map[string]interface{}{k1: outer, "k0": "x"}
+			nestedPath = k1 + "." + k2 + "." + k3
+		}
 		ms := enc(m)
 		sep := ":"
 		if r.P(10) {
@@ -268,6 +288,9 @@ func c10Gen(r *Rng, n int) []string {
 		}
 		for j := 0; j < 3; j++ {
 			path := r.DerivedPath(m, false, 4)
+			if nested && j < 2 {
+				path = nestedPath
+			}
 			segs := strings.Split(strings.TrimSuffix(path, "."), ".")
 			key := r.Pick(cfg.Keys)
 			if r.P(50) {
